@@ -18,7 +18,8 @@ RULE = ('lock-step histories (<=40 ops) on ParameterTable (keyed and positional)
 SHARDS = {'quick': 8, 'thorough': 16}
 MIN_NONTRIVIAL = {'quick': 1500, 'thorough': 50000}
 REQUIRED_CLASSES = ['table-keyed', 'table-list', 'rows-list', 'rows-array', 'grid', 'grid-transposed', 'combination',
-                    'rows-sort', 'table-delete', 'table-overwrite', 'table-reinsert', 'table-positional-after-delete']
+                    'rows-sort', 'table-delete', 'table-overwrite', 'table-reinsert', 'table-positional-after-delete',
+                    'table-empty-keyed', 'table-empty-list', 'table-emptied-by-delete']
 REQUIRED_MONITORS = ['table_state_compares', 'rows_state_compares', 'grid_cells_checked', 'combination_tuples_checked']
 ASSUMPTIONS = ['keys are strings that are not attribute names of the class',
                'row-collector columns are type-homogeneous scalars representable in the declared dtype',
@@ -242,6 +243,16 @@ def table_state(pt, keyed, fields):
         st['items'] = [(k, v.data()) for k, v in pt.items()]
         st['data'] = pt.data()
         st['bypos'] = [pt[i].data() for i in range(len(pt))]
+    # iteration and the ends of positional access (also on the empty table)
+    st['iter'] = [v.data() for v in pt]
+    st['last'] = pt[-1].data() if len(pt) else None
+    try:
+        pt[len(pt)]
+        st['beyond'] = 'returns'
+    except IndexError:
+        st['beyond'] = 'IndexError'
+    except Exception as e:
+        st['beyond'] = type(e).__name__
     return st
 
 
@@ -267,6 +278,9 @@ def model_state(model, keyed, fields):
         st['items'] = list(enumerate(recs))
         st['data'] = recs
         st['bypos'] = recs
+    st['iter'] = list(st['bypos'])
+    st['last'] = st['bypos'][-1] if st['bypos'] else None
+    st['beyond'] = 'IndexError'
     return st
 
 
@@ -336,6 +350,10 @@ def run_table(case, ctx):
         compares += 1
         if after_delete and len(model) > 0:
             classes.append('table-positional-after-delete')
+        if len(model) == 0:
+            classes.append('table-empty-keyed' if keyed else 'table-empty-list')
+            if after_delete:
+                classes.append('table-emptied-by-delete')
         if real != exp:
             diff = [k for k in exp if real.get(k) != exp[k]]
             devs.append(dev('table-state-differs:' + ','.join(diff), dict(step=n, op=op, real={k: real.get(k) for k in diff},
